@@ -130,6 +130,11 @@ class EarliestStartTimeObserver(FeatureObserver):
         self._compute_earliest_start_times()
         self.initialize_features()
 
+    def reset(self):
+        """Recomputes the earliest start times and resets the features."""
+        self._compute_earliest_start_times()
+        super().reset()
+
     def _compute_earliest_start_times(self):
         """Computes the earliest start time of every unscheduled operation
         from the current state of the dispatcher.
